@@ -387,6 +387,10 @@ func vfmExec(t testing.TB, r *vfmRun, init map[string]vfmConf) {
 	case <-time.After(20 * time.Second):
 		t.Fatalf("verif: pathManager.close() hangs")
 	}
+	// the released delivery goroutines must be gone before the next run counts its own
+	for i := 0; i < 100000 && w.settle() != 0; i++ {
+		time.Sleep(100 * time.Microsecond)
+	}
 	r.H = nil
 }
 
